@@ -75,7 +75,7 @@ def insitu(ctx):
     solve_for_psi_squared; z, w recomputed from the documented formulas in exact arithmetic; TLC validates with the PsiUpdateTrace clauses)."""
     runs = insitu_matrix(ctx)
     if ctx.quick:
-        runs = [dict(a, max_traced=a.get("max_traced", 10)) for a in runs]      # quick: at most 10 traced updates per run (first steps of every phase always)
+        runs = [dict(a, max_traced=a.get("max_traced", 5 if a.get("route") else 10)) for a in runs]      # quick: at most 10 traced updates per run (first steps of every phase always)
     res = rf.replay_all(ctx, [("call", dict(module="harness.psiupdate", func="insitu_run", args=a)) for a in runs])
     traces, owner = [], []
     for a, r in zip(runs, res):
@@ -172,7 +172,7 @@ def run(ctx):
                          "mu*dt": pu.MU_PHASES, "tiny |psi|": pu.TINY, "near-tangent |D|/(2c+1)^2": pu.NEAR_SIZES, "residual tolerance": pu.TOL * pu.QUANTUM}
     # 1. the design: lemmas of PsiUpdate at every grid point
     ctx.model_check("PsiUpdate", pu.model_cfg(pu.LEMMAS, smax=(64 if ctx.quick else 128)), name="PsiUpdate[lemmas]", required_actions=["PickZ", "PickW"])
-    for inv in ("NoNone", "NoTangent", "NoTwoIrrational"):     # every class occurs on the grid (sharpness of the universe)
+    for inv in (("NoNone",) if ctx.quick else ("NoNone", "NoTangent", "NoTwoIrrational")):     # every class occurs on the grid (sharpness of the universe)
         ctx.model_check("PsiUpdate", pu.model_cfg([inv], smax=0), name=f"PsiUpdate[coverage {inv}]", expect_violation=inv, count=False)
     # 2. spec -> code: TLC emits the vectors (inputs, class, exact root where rational)
     r = ctx.model_check("PsiUpdate", pu.model_cfg(["Emitted"], emit=True, smax=0), name="PsiUpdate[vector export]", count=False)
@@ -183,6 +183,8 @@ def run(ctx):
     for p in points:
         classes[p["cls"]] = classes.get(p["cls"], 0) + 1
     ctx.cov["grid_classes"] = classes
+    if any(classes.get(c, 0) == 0 for c in ("z0", "w0", "none", "tangent", "two")) or not any(p["cls"] == "two" and p["r"] < 0 for p in points):
+        raise core.MachineryFailure(f"C02: a class is missing from the vectors emitted by TLC: {classes}")
     plans = pu.plan_vectors(points, ctx.seed, ctx.quick)
     tiny = pu.tiny_plans(ctx.seed, ctx.quick)
     near = pu.near_plans(points, ctx.seed, ctx.quick)
